@@ -64,8 +64,22 @@ class Adapter:
                                       data_width=sc["gran"])
             for a in sc.get("align_to") or []:
                 dec.align_to(a)
-            got = dec.add(sb, name=sc.get("name"), addr=sc["start"] if sc.get("explicit") else None,
-                          sparse=not sc["dense"])
+            retried = k >= 1 and (k + cfg["aw"]) % 2 == 1
+            if retried:
+                # refused first attempt (on top of the first window), then the real one
+                try:
+                    dec.add(sb, addr=cfg["subs"][0]["start"], sparse=not sc["dense"])
+                except ValueError:
+                    pass
+                else:
+                    raise common.Violation("overlap-accepted", f"wishbone.Decoder.add() accepted a window on top of another: {cfg['subs']}")
+            try:
+                got = dec.add(sb, name=sc.get("name"), addr=sc["start"] if sc.get("explicit") else None,
+                              sparse=not sc["dense"])
+            except ValueError as e:
+                if retried:
+                    raise common.Violation("retry-refused", f"after a refused attempt, wishbone.Decoder.add() refuses the legal window {sc}: {e}")
+                raise
             if got[0] != sc["start"] or got[1] - got[0] != sc.get("span_map", sc["span"]):
                 raise common.MachineryError(f"window placement not reproducible: {sc} -> {got}")
             subs.append(sb)
